@@ -41,7 +41,7 @@ impl Path {
     }
 }
 
-const ENC: usize = 96;
+const ENC: usize = 48;
 
 /// C15 core: the borrowed schema and the owned schema serialise to identical bytes.
 pub fn same_encoding(b: &'static DataModelType, o: &OwnedDataModelType) {
@@ -221,4 +221,68 @@ pub fn discover(o: &OwnedDataModelType) -> Log {
     postcard_schema::schema::fmt::discover_tys(o, &mut set);
     core::mem::forget(set);
     unsafe { LOG }
+}
+
+// ---------------------------------------------------------------------------------------------
+// C16 (2): byte-stream logger standing in for `hash_update` (same signature)
+// ---------------------------------------------------------------------------------------------
+pub const SCAP: usize = 36;
+static mut STREAM: [u8; SCAP] = [0; SCAP];
+static mut SN: usize = 0;
+
+pub fn stream_reset() {
+    unsafe {
+        SN = 0;
+    }
+}
+
+/// Stub for `key::hash::fnv1a64::hash_update(state, bytes) -> u64`: appends the bytes to the log and
+/// returns the state unchanged (the arithmetic is verified separately on the real function).
+pub fn hash_update_logger(state: u64, bytes: &[u8]) -> u64 {
+    unsafe {
+        let mut i = 0;
+        while i < bytes.len() {
+            if SN < SCAP {
+                STREAM[SN] = bytes[i];
+            }
+            SN += 1;
+            i += 1;
+        }
+    }
+    state
+}
+
+pub struct Expect {
+    pub b: [u8; SCAP],
+    pub n: usize,
+}
+impl Expect {
+    pub fn new() -> Self {
+        Expect { b: [0; SCAP], n: 0 }
+    }
+    pub fn tag(&mut self, t: u8) {
+        self.b[self.n] = t;
+        self.n += 1;
+    }
+    pub fn bytes(&mut self, s: &[u8]) {
+        let mut i = 0;
+        while i < s.len() {
+            self.b[self.n] = s[i];
+            self.n += 1;
+            i += 1;
+        }
+    }
+}
+
+pub fn stream_equals(want: &Expect) {
+    unsafe {
+        assert!(SN == want.n, "hasher fed a stream of a different length than path ++ documented tag-and-name stream");
+        let mut i = 0;
+        while i < SCAP {
+            if i < want.n {
+                assert!(STREAM[i] == want.b[i], "hasher fed a byte that differs from the documented tag-and-name stream");
+            }
+            i += 1;
+        }
+    }
 }
